@@ -7,6 +7,10 @@ TRUSTED = [
     "doit(), SymPy evalf(50)) cover structural-equality branches of Kallen.evaluate that symbolic regeneration with "
     "distinct symbols cannot reach; in Coq these are covered for Kallen(x,y,y) etc. and for 72 equal-symbol "
     "substitutions only (not for arbitrary numeric substitutions)",
+    "builder side (helicity/__init__.py formulate): DPD models are formulated over corpus reactions x single-subsystem "
+    "thinnings x reference subsystems x {default, scalar_m0, stable ids, both}; Coq checks the regenerated mass "
+    "definitions/defaults structurally (sampled lattice, not all reactions); the harness evaluates every zeta variable "
+    "of each model on float64 events against the four-momentum evaluator (tolerance 1e-6, interior events)",
     "the generated expressions are taken after .doit() (unfolds the Kallen nodes with the current "
     "Kallen.evaluate); the un-unfolded tree cannot be lambdified",
     "bridge/search_C19.py: independent four-momentum evaluator (explicit boosts, atan2 angles, 80-digit mpmath) "
@@ -25,14 +29,16 @@ def run(chk):
         "rest-frame reading proved separately (C19_cosf_is_rest_frame_cosine / _lorentz_invariant); the "
         "explicit BoostMatrix route is exercised numerically by the harness and proved in C08",
     ]
-    standard_flow(chk, "symgen_C19.py", ["Gen_C19.v"], ["C19_lemmas.v", "C19_lemmas2.v"], "C19.v",
+    standard_flow(chk, "symgen_C19_all.py", ["Gen_C19.v", "Gen_C19_dpd.v"],
+                  ["C19_lemmas.v", "C19_lemmas2.v", "C19_lemmas3.v"], "C19.v",
                   "search_C19.py", 90, 1500,
                   "exact-rational three-body events in the parent rest frame (interior, 1e-3..1e-12 from the "
                   "collinear boundary, soft corner, one/two/three massless, two/three equal masses, random rational "
                   "rotations and label permutations); every non-raising index tuple of the three builders is "
                   "evaluated along route A (doit, then 80-digit mpmath and float64), route B (particle masses substituted before doit) and route C (whole event substituted before doit) and compared with an independent four-momentum evaluator; plus "
-                  "the raise-set over all 16+16+64 tuples and DalitzPlotDecomposition models for 2 corpus reactions "
-                  "x 3 reference subsystems; distinct = distinct generated cases",
+                  "the raise-set over all 16+16+64 tuples, DalitzPlotDecomposition models for 2 corpus reactions "
+                  "x 3 reference subsystems (definitions) and 42 (quick) / ~300 (thorough) models over thinnings x builder "
+                  "options evaluated on events; distinct = distinct generated cases",
                   coq_timeout=900, search_timeout=1700)
 
 
